@@ -37,7 +37,11 @@ Definition err_step (a : api) (p : poss) : list poss :=
   match a with
   | AddDoc _ _ id v => [(c, q); (c, q ++ [(PAdd id v, false)])]
   | DelDoc _ _ id => [(c, q); (c, q ++ [(PDel id, false)])]
-  | Rollback _ => [(c, q); (c, [])]
+  | Rollback _ =>
+      (* the handle's queue is cleared before the log is truncated: a failing truncation can leave
+         nothing changed as far as the specification can tell, everything discarded, or every
+         operation still in the log but no longer held by the handle (recovered by the next one) *)
+      [(c, q); (c, []); (c, map (fun x => (fst x, false)) q)]
   | _ => [(c, q)]
   end.
 
@@ -65,26 +69,30 @@ Fixpoint spec_run03 (ps : list poss) (i : N) (evs : list obs03) : option N * lis
   end.
 
 (** a case: how many injected faults actually fired; the observed calls; the result of the final
-    healthy [writer(); commit()]: contents, or None when that commit failed or the index could
-    not be read.  With two faults only the second sentence of the statement applies: the running
-    index and the stored index stay readable. *)
-Definition case03 := (N * list obs03 * option (list (N * N)))%type.
+    healthy [writer(); commit()]: the contents a new reader of the running index sees and the
+    contents a reopen from the same storage sees ([None] when that commit failed or the index
+    could not be read).  With at most one fault the two must agree and be explained by a tracked
+    possibility.  With two faults only the second sentence of the statement applies: the running
+    index and the stored index stay readable (a commit whose error path itself failed may leave the
+    stored manifest ahead of the running one; the statement does not exclude that). *)
+Definition case03 := (N * list obs03 * (option (list (N * N)) * option (list (N * N))))%type.
 
 Definition readable (o : obs03) : bool :=
   match o_mem o, o_disk o with Some _, Some _ => true | _, _ => false end.
 
 Definition spec (c : case03) : bool :=
-  let '(nf, evs, final) := c in
+  let '(nf, evs, (fmem, fdisk)) := c in
   if nf <=? 1 then
     match spec_run03 [([], [])] 0 evs with
     | (Some _, _) => false
     | (None, ps) =>
-        match final with
-        | None => false
-        | Some f => existsb (fun p => cont_eqb f (apply_all (map fst (snd p)) (fst p))) ps
+        match fmem, fdisk with
+        | Some f, Some g =>
+            cont_eqb f g && existsb (fun p => cont_eqb f (apply_all (map fst (snd p)) (fst p))) ps
+        | _, _ => false
         end
     end
-  else forallb readable evs && match final with Some _ => true | None => false end.
+  else forallb readable evs && match fmem, fdisk with Some _, Some _ => true | _, _ => false end.
 
 (** * The commit path under storage faults (api/writer.rs, IndexWriter::commit, after the repairs)
 
